@@ -141,7 +141,11 @@ func runMain(args []string) int {
 					fmt.Printf("[start] %s\n", in.Name())
 					mu.Unlock()
 				}
-				r := l.runInstance(in, strings.Split(*solvers, ","), qt)
+				sv := *solvers
+				if in.Solvers != "" {
+					sv = in.Solvers
+				}
+				r := l.runInstance(in, strings.Split(sv, ","), qt)
 				o := judge(*prop, in, r, rp, kfs)
 				mu.Lock()
 				outs[i] = o
